@@ -210,7 +210,9 @@ def build_document(sheets):
     return Element("office:document-content", children=[Element("office:body", children=[spreadsheet])])
 
 
-def run_ods_rows(model, ch, document, sheet):
+def run_ods_rows(model, ch, document, sheet, fault=None):
+    """fault: None, "empty file", "not a zip archive", "no content.xml" or "malformed XML" - what the standard library
+    answers for such a file (its size, zipfile.BadZipFile, KeyError from ZipFile.read, ElementTree.ParseError)."""
     root = wrap(document)
 
     @stub
@@ -252,7 +254,19 @@ def run_ods_rows(model, ch, document, sheet):
     # the container: whatever helper opens the archive and parses content.xml, it ends with the root of the tree that
     # xml.etree.ElementTree.parse returned for the bytes of the member "content.xml"
     content = Opaque("bytes", True, ["<content.xml>"])
-    archive = Obj("zipfile.ZipFile", {"read": stub(lambda i, a, k: content), "close": stub(lambda i, a, k: None)}, label="archive")
+
+    @stub
+    def archive_read(interp_, args, kwargs):
+        if fault == "no content.xml":
+            interp_.raise_("builtins.KeyError", "There is no item named 'content.xml' in the archive")
+        return content
+
+    archive = Obj("zipfile.ZipFile", {"read": archive_read, "close": stub(lambda i, a, k: None)}, label="archive")
+
+    def open_archive(interp_, args, kwargs):
+        if fault in ("empty file", "not a zip archive"):
+            interp_.raise_("zipfile.BadZipFile", "File is not a zip file")
+        return archive
     tree = Obj("xml.etree.ElementTree.ElementTree", {"getroot": stub(lambda i, a, k: root)}, label="tree")
 
     def with_hook(interp_, args, kwargs):
@@ -265,14 +279,20 @@ def run_ods_rows(model, ch, document, sheet):
     def parse(interp_, args, kwargs):
         source = args[0] if args else None
         if isinstance(source, Obj) and source.attrs.get("content") is content or source is content:
+            if fault == "malformed XML":
+                interp_.raise_("xml.etree.ElementTree.ParseError", "not well-formed (invalid token): line 1, column 0")
             return tree
         raise Undecided("ElementTree.parse(%r)" % (source,))
 
     stubs = {}
-    if "cutplace.rowio.ods_rows.ods_content_root" in model.functions:
+    if "cutplace.rowio.ods_rows.ods_content_root" in model.functions and fault is None:
         stubs["cutplace.rowio.ods_rows.ods_content_root"] = content_root
+    size = 0 if fault == "empty file" else 4096
+    file_probes = {"os.path.isfile": lambda i, a, k: True, "os.path.exists": lambda i, a, k: True, "os.path.isdir": lambda i, a, k: False,
+                   "os.path.getsize": lambda i, a, k: size,
+                   "os.stat": lambda i, a, k: Obj("os.stat_result", {"st_size": size}, label="stat")}
     interp = Interp(model, ch, stubs=stubs,
-                    externals={"zipfile.ZipFile": lambda i, a, k: archive, "contextlib.closing": lambda i, a, k: a[0], "with": with_hook,
+                    externals={"zipfile.ZipFile": open_archive, **file_probes, "contextlib.closing": lambda i, a, k: a[0], "with": with_hook,
                                "io.BytesIO": bytes_io, "xml.etree.ElementTree.parse": parse,
                                "iterate": iterate_hook, "len": len_hook, "binop": binop_hook, "subscript": subscript_hook, "os.path.basename": lambda i, a, k: "x"})
     rows = []
@@ -388,6 +408,27 @@ def rule_repeats_and_sheets(ctx):
     decide_kinds(ctx, "O15.2", "ods_rows(sheet selection)", "cutplace.rowio.ods_rows", sheet_cell, min_cells=12)
 
 
+def rule_container_faults(ctx, rule_id="O15.5"):
+    """A file that is empty, not a zip archive, lacks content.xml or holds malformed XML fails with a data-format error -
+    before any row is delivered, and whatever the reader finds out about the file beforehand (size, kind)."""
+    model = ctx.model
+    ctx.res.minimum(rule_id, 1)
+
+    def cell(ch):
+        fault = ch.choose("container", ["empty file", "not a zip archive", "no content.xml", "malformed XML"])
+        sheet = ch.choose("sheet", [1, 2])
+        a = text_atom("A")
+        document = build_document([[({}, [({}, [Element("text:p", text=a)])])], [({}, [({}, [Element("text:p", text=a)])])]])
+        rows, outcome = run_ods_rows(model, ch, document, sheet, fault=fault)
+        key = "%s, sheet %d" % (fault, sheet)
+        if outcome == "raise DataFormatError" and not rows:
+            return (key, None, None)
+        return (key, "broken container not refused with DataFormatError",
+                "%d row(s), then %s" % (len(rows), "end of data (no error)" if outcome == "rows" else outcome))
+
+    decide_kinds(ctx, rule_id, "ods_rows(broken containers)", "cutplace.rowio.ods_rows", cell, min_cells=8)
+
+
 def rule_row_containers_and_covered_cells(ctx, rule_id="O15.3"):
     """
     O15.3: the rows of a sheet are its table:table-row elements in document order wherever the format allows them - directly
@@ -488,4 +529,4 @@ def rule_empty_rows(ctx, rule_id="O15.2"):
 
 from .common import rule_module_state  # noqa: E402
 
-RULES = [rule_cell_texts, rule_repeats_and_sheets, rule_empty_rows, rule_row_containers_and_covered_cells, rule_module_state]
+RULES = [rule_cell_texts, rule_repeats_and_sheets, rule_empty_rows, rule_row_containers_and_covered_cells, rule_container_faults, rule_module_state]
